@@ -61,6 +61,69 @@ var rayFamily = cbFamily{
 	},
 }
 
+// iterFamily: SolidMux.IterContains-like functions: a func(int) callback
+// parameter and an int result that counts the invocations.
+func iterContainsSig(sig *types.Signature) (int, bool) {
+	if sig.Results().Len() != 1 || !isIntType(sig.Results().At(0).Type()) {
+		return 0, false
+	}
+	idx := -1
+	for i := 0; i < sig.Params().Len(); i++ {
+		fs, ok := sig.Params().At(i).Type().Underlying().(*types.Signature)
+		if !ok {
+			continue
+		}
+		if fs.Params().Len() == 1 && fs.Results().Len() == 0 && isIntType(fs.Params().At(0).Type()) {
+			if idx >= 0 {
+				return 0, false
+			}
+			idx = i
+		} else {
+			return 0, false
+		}
+	}
+	return idx, idx >= 0
+}
+
+var iterFamily = cbFamily{
+	prefix: "A3",
+	match: func(p *packages.Package, fd *ast.FuncDecl) *types.Var {
+		obj, _ := p.TypesInfo.Defs[fd.Name].(*types.Func)
+		if obj == nil || obj.Name() != "IterContains" {
+			return nil
+		}
+		sig := obj.Type().(*types.Signature)
+		idx, ok := iterContainsSig(sig)
+		if !ok {
+			return nil
+		}
+		return sig.Params().At(idx)
+	},
+	delegSig: func(sig *types.Signature, name string) (int, bool) {
+		if name != "IterContains" {
+			return 0, false
+		}
+		return iterContainsSig(sig)
+	},
+}
+
+// countingCall recognises calls to functions whose result is, by the contract
+// checked by A3.CNT, the number of invocations of their callback argument.
+func countingCall(info *types.Info, call *ast.CallExpr) (int, bool) {
+	f := calleeFunc(info, call)
+	if f == nil {
+		return 0, false
+	}
+	sig, _ := f.Type().(*types.Signature)
+	if sig == nil {
+		return 0, false
+	}
+	if i, ok := rayCollisionsSig(sig); ok {
+		return i, true
+	}
+	return iterFamily.delegSig(sig, f.Name())
+}
+
 func init() {
 	register("C07", &propInfo{
 		Explanation: "For every function with the RayCollisions contract (a func(RayCollision) callback parameter and an int result; 2D and 3D, found by signature) a structured abstract interpreter proves on every path that the returned count equals the number of callback invocations (A3.CNT, delegations to siblings with an equivalent callback are neutral; closures must be count-neutral per invocation), that the callback is only invoked where it is known to be non-nil (A3.GUARD) and that neither the count nor the control flow depends on the callback being nil (A3.NILDEP). AM: every first-collision selection keeps the candidate with the smaller Scale. NN: every RayCollision handed out has a Scale that passed a non-negativity test. KIND: ray wrappers keep directions, ray parameters and normals in their kinds.",
@@ -68,6 +131,20 @@ func init() {
 		Assumptions: []string{"user-supplied callbacks do not panic", "sibling RayCollisions implementations satisfy the same contract (checked for all implementations in the library, assumed for foreign ones)"},
 		Fixtures:    []string{"a3"},
 		Run:         runC07,
+		SelfTest: []Mutation{
+			{Name: "transformedCollider without nil pass-through", File: "model3d/transform.go",
+				Old: "\tif f == nil {\n\t\treturn t.c.RayCollisions(t.innerRay(r), nil)\n\t}\n", New: "", Rule: "A3.GUARD", Expect: "transformedCollider"},
+			{Name: "Cone closure forgets to count", File: "model3d/shapes.go",
+				Old: "\t\t\t\t}\n\t\t\t\tn++\n", New: "\t\t\t\t}\n", Rule: "A3.CNT", Expect: "Cone"},
+			{Name: "Triangle counts only with callback", File: "model3d/primitives.go",
+				Old: "\tif f != nil {\n\t\tf(RayCollision{Scale: scale, Normal: t.Normal(), Extra: info})\n\t}\n\treturn 1", New: "\tif f != nil {\n\t\tf(RayCollision{Scale: scale, Normal: t.Normal(), Extra: info})\n\t\treturn 1\n\t}\n\treturn 0", Rule: "A3.NILDEP", Expect: "Triangle"},
+			{Name: "2D JoinedCollider keeps the farthest hit", File: "model2d/collisions.go",
+				Old: "collision.Scale < closest.Scale || !anyCollides", New: "collision.Scale > closest.Scale || !anyCollides", Rule: "AM", Expect: "JoinedCollider"},
+			{Name: "Capsule reports two, returns count 1", File: "model3d/shapes.go",
+				Old: "\tif !c.Contains(r.Origin) {\n\t\tif f != nil {\n\t\t\tf(colls[0])\n\t\t}\n\t\tcount += 1\n\t}", New: "\tif !c.Contains(r.Origin) {\n\t\tif f != nil {\n\t\t\tf(colls[0])\n\t\t}\n\t}", Rule: "A3.CNT", Expect: "Capsule"},
+			{Name: "profileCollider early exit before counting", File: "model3d/collisions.go",
+				Old: "\t\t\tif f != nil {\n\t\t\t\tf(RayCollision{\n\t\t\t\t\tNormal: XY(rc.Normal.X, rc.Normal.Y),\n\t\t\t\t\tScale:  rc.Scale,\n\t\t\t\t})\n\t\t\t}\n\t\t\tcount++", New: "\t\t\tif f != nil {\n\t\t\t\tf(RayCollision{\n\t\t\t\t\tNormal: XY(rc.Normal.X, rc.Normal.Y),\n\t\t\t\t\tScale:  rc.Scale,\n\t\t\t\t})\n\t\t\t}\n\t\t\tif rc.Scale == maxT {\n\t\t\t\tcontinue\n\t\t\t}\n\t\t\tcount++", Rule: "A3.CNT", Expect: "profileCollider"},
+		},
 	})
 }
 
@@ -77,6 +154,8 @@ func runC07(c *Ctx) {
 		pkgs = c.allRepoPkgs("a3")
 	}
 	c.runCallbackCount(rayFamily, pkgs)
+	c.runArgMin(pkgs, "AM")
+	c.floor("AM", 10)
 	c.floor("A3.CNT", 30)
 	c.floor("A3.GUARD", 25)
 	c.floor("A3.NILDEP", 25)
